@@ -17,9 +17,21 @@
 
 use std::collections::BTreeMap;
 use std::num::NonZeroUsize;
+#[cfg(not(flacenc_verif))]
 use std::sync::Arc;
+#[cfg(not(flacenc_verif))]
 use std::sync::Mutex;
+#[cfg(not(flacenc_verif))]
 use std::thread;
+
+#[cfg(flacenc_verif)]
+use super::verif::chan as crossbeam_channel;
+#[cfg(flacenc_verif)]
+use super::verif::thread;
+#[cfg(flacenc_verif)]
+use super::verif::Arc;
+#[cfg(flacenc_verif)]
+use super::verif::Mutex;
 
 use super::arrayutils::i32s_to_le_bytes;
 use super::coding;
@@ -38,8 +50,15 @@ use super::source::Fill;
 use super::source::FrameBuf;
 use super::source::Source;
 
+#[cfg(not(flacenc_verif))]
 use crossbeam_channel::Receiver;
+#[cfg(not(flacenc_verif))]
 use crossbeam_channel::Sender;
+
+#[cfg(flacenc_verif)]
+use super::verif::chan::Receiver;
+#[cfg(flacenc_verif)]
+use super::verif::chan::Sender;
 
 /// `Arc::into_inner` with unwrapping.
 ///
@@ -147,8 +166,21 @@ impl ParFrameBuf {
     }
 
     /// Locks `FrameBuf` with the specified id and returns `MutexGuard`.
+    #[cfg(not(flacenc_verif))]
     #[inline]
     pub fn lock_buffer(&self, bufid: usize) -> std::sync::MutexGuard<'_, NumberedFrameBuf> {
+        self.buffers[bufid]
+            .lock()
+            .expect(panic_msg::MUTEX_LOCK_FAILED)
+    }
+
+    /// Verification-only twin of `lock_buffer` (guard type of the simulated mutex).
+    #[cfg(flacenc_verif)]
+    #[inline]
+    pub fn lock_buffer(
+        &self,
+        bufid: usize,
+    ) -> super::verif::MutexGuard<'_, NumberedFrameBuf> {
         self.buffers[bufid]
             .lock()
             .expect(panic_msg::MUTEX_LOCK_FAILED)
@@ -404,6 +436,8 @@ pub fn encode_with_fixed_block_size<T: Source>(
                         |mut frame| {
                             parbuf.enqueue_refill(bufid);
                             frame.precompute_bitstream();
+                            #[cfg(flacenc_verif)]
+                            super::verif::probe("frame_done", frame_number as u64);
                             parsink.push(frame_number, frame);
                         },
                     );
